@@ -276,7 +276,11 @@ class BaseObserver(EventDispatcher):
             try:
                 emitter.start()
             except Exception:
+                # The watch of an emitter that cannot be started is unscheduled as a whole:
+                # keeping its handlers would serve them again once the watch is re-scheduled.
                 self._remove_emitter(emitter)
+                self._handlers.pop(emitter.watch, None)
+                self._watches.discard(emitter.watch)
                 raise
         super().start()
 
@@ -317,14 +321,16 @@ class BaseObserver(EventDispatcher):
         """
         with self._lock:
             watch = ObservedWatch(path, recursive=recursive, event_filter=event_filter, follow_symlink=follow_symlink)
-            self._add_handler_for_watch(event_handler, watch)
 
             # If we don't have an emitter for this watch already, create it.
+            # The handler is registered only afterwards: when the emitter cannot be
+            # created or started, this call must leave nothing behind.
             if watch not in self._emitter_for_watch:
                 emitter = self._emitter_class(self.event_queue, watch, timeout=self.timeout, event_filter=event_filter)
                 if self.is_alive():
                     emitter.start()
                 self._add_emitter(emitter)
+            self._add_handler_for_watch(event_handler, watch)
             self._watches.add(watch)
         return watch
 
